@@ -361,22 +361,29 @@ PROPS["C17"] = {
         {"spec": "BufferedOps.tla", "cfg": "BufferedOps_thorough.cfg", "tier": "thorough", "timeout": 3000},
         {"spec": "BufferedOps.tla", "cfg": "BufferedOps_neg_once.cfg", "expect": "violation"},
         {"spec": "BufferedOps.tla", "cfg": "BufferedOps_neg_stop.cfg", "expect": "violation"},
-        # the reprovide schedule under region merges: as coded the hard bound of two cycles holds ...
+        # the reprovide schedule when scheduled prefixes are replaced by a shorter one: as coded (single-key reprovides
+        # never widen, a started key may merge) the hard bound of two cycles holds ...
         {"spec": "ScheduleMerge.tla", "cfg": "ScheduleMerge_ascoded.cfg"},
-        # ... the documented bound interval + delay does not (known finding D19; must be refuted) ...
+        # ... the documented bound interval + delay does not (known finding D23; must be refuted) ...
+        {"spec": "ScheduleMerge.tla", "cfg": "ScheduleMerge_d23.cfg", "expect": "violation"},
+        # ... nor did it while single-key reprovides adopted a wider covered prefix (D19, repaired; must be refuted) ...
         {"spec": "ScheduleMerge.tla", "cfg": "ScheduleMerge_d19.cfg", "expect": "violation"},
-        # ... and would hold if the merged prefix inherited the earliest due time it replaces
-        {"spec": "ScheduleMerge.tla", "cfg": "ScheduleMerge_fixed.cfg"},
+        # ... it holds without the merge on start, and with both merges if the merged prefix inherited the earliest due time
+        {"spec": "ScheduleMerge.tla", "cfg": "ScheduleMerge_nomerge.cfg"},
+        {"spec": "ScheduleMerge.tla", "cfg": "ScheduleMerge_inherit.cfg"},
     ],
     "drivers": [{"test": "TestSweep", "trace_spec": "SweepTrace.tla", "trace_cfg": "SweepTrace.cfg", "inv_cfg": {"C17": "SweepTrace_C17.cfg"}}],
     "assumptions": [
         "the closest-peers router answers from the simulated swarm with the replication-factor many nearest peers of any key (the DHT lookup the provider is built on returns bucket-size = replication-factor peers), or fails while the node is offline",
         "the network is instantaneous: all work triggered at one virtual instant completes in it; swarm changes, outages and restarts happen at quiescent points; the ADD_PROVIDERs of one key at one instant are one advertisement",
-        "after connectivity returns, after a restart and after a call the node is given 10 virtual minutes before obligations are checked; the reprovide bound is interval + max delay + 1 minute",
+        "after connectivity returns, after delivery works again and after a call the node is given 10 virtual minutes before obligations are checked; the reprovide bound is interval + max delay + 1 minute; after a restart only recipients, addresses and silence after stop are judged",
+        "delivery outages are total and end by replacing the unreachable swarm with a disjoint reachable one in one instant, so that no advertisement is half delivered (what the library owes after a partly delivered advertisement is not defined by the property); an undeliverable record costs 10 virtual seconds",
+        "a provide-once issued while the provider reports itself offline is not owed (the library's tests pin that it is dropped without error), nor one that was still queued when the provider declared itself offline (the queue is emptied); a key started or left unadvertised in that state is owed its regular slot",
+        "where the library ends a swarm exploration early and where it replaces scheduled prefixes by a shorter one is taken from two verif hook points (explore:gaveup, schedule:subsume), so that the two known findings are attributed exactly and every other late or misdirected advertisement is a violation",
         "the provider's random keys (network size estimation) are drawn from a scenario-seeded stream substituted for crypto/rand.Reader so that runs can be repeated; remaining scheduling differences are covered by running a replay four times",
         "replication factors 2-5 with swarms of 4-65 peers; the dual wrapper is not exercised",
     ],
-    "explanation": "BufferedOps.tla models the buffered wrapper's coalescing of a batch of start / forced start / provide-once / stop operations against applying them one by one (same kept set, every advertisement asked for last is queued) for all batches up to length 6 over 2 keys, with two negative controls; a real SweepingProvider (optionally behind the buffered wrapper) runs histories of start/once/stop calls, swarm growth and shrinkage, outages, restarts over several reprovide cycles of virtual time against a router and message sender that answer from a simulated swarm; TLC validates every advertisement (exactly the r nearest peers, current addresses), the reprovide deadline, catch-up after outages and restarts, and silence after stop against SweepTrace.tla.",
+    "explanation": "BufferedOps.tla models the buffered wrapper's coalescing of a batch of start / forced start / provide-once / stop operations against applying them one by one (same kept set, every advertisement asked for last is queued) for all batches up to length 6 over 2 keys, with two negative controls; a real SweepingProvider (optionally behind the buffered wrapper) runs histories of start/once/stop calls, swarm growth and shrinkage, outages, restarts over several reprovide cycles of virtual time against a router and message sender that answer from a simulated swarm; TLC validates every advertisement (exactly the r nearest peers, current addresses), first advertisement and the reprovide deadline also after connectivity and delivery outages (missed work caught up within ten minutes), and silence after stop against SweepTrace.tla; ScheduleMerge.tla models the reprovide schedule under the two ways scheduled prefixes are replaced by a shorter one.",
 }
 
 PROPS["C14"] = {
@@ -1457,6 +1464,23 @@ def _drop_later(run, k):
     return out if dropped else None
 
 
+def mut_c17_not_caught_up(run):
+    # after connectivity returned, a kept key is never advertised again
+    if not _c17(run) or run[0].get("buffered"):
+        return None
+    kept = set()
+    for i, ev in enumerate(run):
+        if ev["e"] == "Start":
+            kept |= set(ev["keys"])
+        if ev["e"] in ("Stop", "Restart"):
+            return None
+        if ev["e"] == "Online" and kept:
+            k = sorted(kept)[0]
+            out = [copy.deepcopy(e) for j, e in enumerate(run) if not (j > i and e["e"] == "Send" and e["k"] == k)]
+            return out if len(out) < len(run) else None
+    return None
+
+
 def mut_c17_stopped_readvertised(run):
     if not _c17(run):
         return None
@@ -1559,7 +1583,7 @@ def mut_c14_subscription_leak(run):
 
 MUTATIONS = {
     "C14": [mut_c14_left, mut_c14_close_hangs, mut_c14_op_hangs, mut_c14_op_panics, mut_c14_constructor_leak, mut_c14_subscription_leak],
-    "C17": [mut_c17_wrong_recipient, mut_c17_missing_recipient, mut_c17_never_reprovided, mut_c17_stopped_readvertised, mut_c17_stale_addrs],
+    "C17": [mut_c17_wrong_recipient, mut_c17_missing_recipient, mut_c17_never_reprovided, mut_c17_not_caught_up, mut_c17_stopped_readvertised, mut_c17_stale_addrs],
     "C15": [mut_c15_wrong_half, mut_c15_lan_preferred, mut_c15_dup_provider, mut_c15_over_count, mut_c15_private_referral, mut_c15_stored_private, mut_c15_advertised_loopback, mut_c15_union],
     "C16": [mut_c16_unsorted, mut_c16_not_nearest, mut_c16_stranger, mut_c16_group, mut_c16_crawl_twice, mut_c16_no_outcome, mut_c16_unreached, mut_c16_op_panic, mut_c16_swap_mix],
     "C11": [mut_c11_crossed, mut_c11_late_success, mut_c11_pipelined, mut_c11_reuse, mut_c11_not_reset, mut_c11_two_streams],
